@@ -1,2 +1,238 @@
-(* C02 - placeholder until the pipeline theorems are proved *)
-Require Import WD.Base.Prelude WD.Model.Pipeline.
+(* C02 - A recursive watch covers every directory that exists, under its current name.
+   Only statements; every proof is `exact <lemma>`.  The theorems are about the model of the REPAIRED reader
+   (c_fix_ignored = c_fix_movein = c_fix_simulate = true is the current code of /repo) without add_watch faults
+   (c_faults = []), over the file-system + kernel model Fs.v.
+
+   Vocabulary (Proofs/CoverProofs.v):
+     wf_fs w        unique paths, unique inodes, fresh inode counter, every path is  d/n  with a valid name n, and
+                    every entry that lies below another entry has its parent directory in the file system
+     scope C p      p is the root or below it (recursive) / p is the root (non-recursive)
+     Cover C t k r  every directory of t in scope has a kernel watch kw (watch_of_ino) with
+                    _path_for_wd[kw] = its path and _wd_for_path[its path] = kw          (the C02 invariant)
+     WInv C t k r   distinct live wds/inodes, no stale kernel watch, no stale _wd_for_path key, cookies fresh
+     RSync C w k r  wf_fs w, the root is a directory, WInv, Cover, kernel queue empty
+     mask_ok C      the event mask contains IN_CREATE, IN_MOVED_FROM, IN_MOVED_TO (WATCHDOG_ALL does) *)
+Require Import WD.Base.Prelude WD.Base.BStr WD.Model.SubEvents WD.Model.Emitter WD.Model.Fs WD.Model.Reader
+               WD.Model.Pipeline WD.Proofs.CoverProofs.
+
+(* ---- 1. well-formed file systems are closed under every applicable operation on normal paths *)
+Theorem C02_wf_preserved : forall w o w', wf_fs w -> op_np o -> apply_op w o = Some w' -> wf_fs w'.
+Proof. exact wf_apply_op. Qed.
+Print Assumptions C02_wf_preserved.
+
+(* os.walk over the model lists exactly the directories below p (used by construct and by the moved-in repair) *)
+Theorem C02_walk_dirs : forall w p, wf_fs w -> fisdir p (w_fs w) = true ->
+  forall x, In x (walk_dirs (w_fs w) p) <->
+            exists e, In e (w_fs w) /\ f_path e = x /\ f_dir e = true /\ under p x = true.
+Proof. exact walk_dirs_spec. Qed.
+Print Assumptions C02_walk_dirs.
+
+(* ---- 2a. Inotify.__init__ establishes the invariant: recursive - every directory below the root; non-recursive - the root *)
+Theorem C02_construct_cover : forall C, c_faults C = [] -> forall w, wf_fs w -> fisdir (c_root C) (w_fs w) = true ->
+  exists r k, construct C kinit (w_fs w) = Some (r, k) /\ WInv C (w_fs w) k r /\ Cover C (w_fs w) k r /\
+              k_queue k = [] /\ mvf r = [].
+Proof. exact construct_cover. Qed.
+Print Assumptions C02_construct_cover.
+
+(* ---- 2b. one operation followed by one read of the whole kernel queue, from a synchronised state *)
+(* Touch, Write, Chmod, Unlink: the watch state is untouched, one raw event per kernel record *)
+Theorem C02_step_quiet : forall C w k r o w', RSync C w k r -> op_np o -> quiet_op o -> apply_op w o = Some w' ->
+  let k1 := kernel_op k (w_fs w) o in
+  exists evs, read_batch C (w_fs w') (r, drainq k1, []) (k_queue k1) = Done (r, drainq k1, evs) /\
+              length evs = length (k_queue k1) /\ RSync C w' (drainq k1) r.
+Proof. exact step_quiet. Qed.
+Print Assumptions C02_step_quiet.
+
+(* Mkdir: the new directory is watched under its path (no other key of _wd_for_path changes) *)
+Theorem C02_step_mkdir : forall C, c_faults C = [] -> forall w k r p w', RSync C w k r -> npath p ->
+  apply_op w (Mkdir p) = Some w' -> N.land IN_CREATE (c_mask C) <> 0%N ->
+  let k1 := kernel_op k (w_fs w) (Mkdir p) in
+  exists r' k' evs, read_batch C (w_fs w') (r, drainq k1, []) (k_queue k1) = Done (r', k', evs) /\ RSync C w' k' r' /\
+    (forall x, x <> p -> alookup beqb x (wfp r') = alookup beqb x (wfp r)).
+Proof. exact step_mkdir. Qed.
+Print Assumptions C02_step_mkdir.
+
+(* Rmdir: the entry is gone, kernel watch and both maps are cleaned (RSync includes: no stale watch, no stale key) *)
+Theorem C02_step_rmdir : forall C w k r p w', RSync C w k r -> npath p -> p <> c_root C ->
+  apply_op w (Rmdir p) = Some w' ->
+  let k1 := kernel_op k (w_fs w) (Rmdir p) in
+  exists r' k' evs, read_batch C (w_fs w') (r, drainq k1, []) (k_queue k1) = Done (r', k', evs) /\ RSync C w' k' r'.
+Proof. exact step_rmdir. Qed.
+Print Assumptions C02_step_rmdir.
+
+(* Rename of a file - inside the tree, into it, out of it, replacing a file: both maps unchanged *)
+Theorem C02_step_rename_file : forall C w k r p q w' ep, RSync C w k r -> npath p -> npath q ->
+  N.land IN_MOVED_FROM (c_mask C) <> 0%N -> N.land IN_MOVED_TO (c_mask C) <> 0%N ->
+  apply_op w (Rename p q) = Some w' -> flookup p (w_fs w) = Some ep -> f_dir ep = false ->
+  fisdir (dirname p) (w_fs w) = true ->
+  let k1 := kernel_op k (w_fs w) (Rename p q) in
+  exists r' k' evs, read_batch C (w_fs w') (r, drainq k1, []) (k_queue k1) = Done (r', k', evs) /\ RSync C w' k' r' /\
+    wfp r' = wfp r /\ pfw r' = pfw r.
+Proof. exact step_rename_file. Qed.
+Print Assumptions C02_step_rename_file.
+
+(* Rename of a directory inside the tree (to a fresh name): the moved directory AND every directory below it are
+   covered under the new prefix - the re-key loop with the C14 rewrite (replace_first). *)
+Theorem C02_step_rename_dir_inside : forall C w k r p q w' ep, RSync C w k r -> npath p -> npath q ->
+  c_recursive C = true -> N.land IN_MOVED_FROM (c_mask C) <> 0%N -> N.land IN_MOVED_TO (c_mask C) <> 0%N ->
+  apply_op w (Rename p q) = Some w' -> flookup p (w_fs w) = Some ep -> f_dir ep = true ->
+  scope C p -> p <> c_root C -> scope C q -> flookup q (w_fs w) = None ->
+  let k1 := kernel_op k (w_fs w) (Rename p q) in
+  exists r' k' evs, read_batch C (w_fs w') (r, drainq k1, []) (k_queue k1) = Done (r', k', evs) /\ RSync C w' k' r'.
+Proof. exact step_rename_dir_inside. Qed.
+Print Assumptions C02_step_rename_dir_inside.
+
+(* the re-key loop by itself: run on its own key list, every binding below src moves to the same suffix below dst
+   (j2 of RK), _path_for_wd follows, nothing else changes (j1, j3), and no key below src is left *)
+Theorem C02_rekey_loop : forall src dst, src <> [] -> (forall rest, under src (dst ++ sep :: rest) = false) ->
+  forall r0, (forall x wd, alookup beqb x (wfp r0) = Some wd -> under dst x = false) ->
+  (forall x y wd, alookup beqb x (wfp r0) = Some wd -> alookup beqb y (wfp r0) = Some wd -> x = y) ->
+  let r := rekey_loop (wfp r0) src dst r0 in
+  RK src dst r0 r /\ (forall x, under src x = true -> alookup beqb x (wfp r) = None).
+Proof. exact rekey_all. Qed.
+Print Assumptions C02_rekey_loop.
+
+(* all proved operation kinds in one statement (covered_op lists them with their side conditions) *)
+Theorem C02_cover_step : forall C, c_faults C = [] -> forall w k r o w', mask_ok C -> RSync C w k r ->
+  covered_op C w o -> apply_op w o = Some w' ->
+  let k1 := kernel_op k (w_fs w) o in
+  exists r' k' evs, read_batch C (w_fs w') (r, drainq k1, []) (k_queue k1) = Done (r', k', evs) /\ RSync C w' k' r'.
+Proof. exact cover_step. Qed.
+Print Assumptions C02_cover_step.
+
+(* the same on the pipeline: [AOp o; ARead (whole queue)] from a state whose reader-side buffer is idle *)
+Theorem C02_cover_step_pipeline : forall P s o w', let C := pc_reader P in
+  c_faults C = [] -> mask_ok C -> RSync C (p_world s) (p_k s) (p_r s) -> buf_ready (p_buf s) ->
+  covered_op C (p_world s) o -> apply_op (p_world s) o = Some w' ->
+  exists s' obs,
+    prun P s [AOp o; ARead (length (k_queue (kernel_op (p_k s) (w_fs (p_world s)) o)))] [] = Done (s', obs) /\
+    p_world s' = w' /\ RSync C (p_world s') (p_k s') (p_r s') /\ Cover C (w_fs (p_world s')) (p_k s') (p_r s').
+Proof. exact pipe_cover_step. Qed.
+Print Assumptions C02_cover_step_pipeline.
+
+(* ---- 2c. sequential histories of any length: every operation is followed by a read of the whole queue.
+   FULL statement: for every history of applicable operations on normal paths that leave the root and its ancestors
+   alone, Cover holds at the end. *)
+Definition C02_cover_sequential_full : Prop :=
+  forall C, c_faults C = [] -> c_fix_ignored C = true -> c_fix_movein C = true -> c_fix_simulate C = true -> mask_ok C ->
+  forall ops w, wf_fs w -> fisdir (c_root C) (w_fs w) = true ->
+  Forall (fun o => op_np o /\ op_keeps_root C o) ops ->
+  exists r0 k0 w' k' r', construct C kinit (w_fs w) = Some (r0, k0) /\ rrun C w k0 r0 ops = Some (w', k', r') /\
+                         Cover C (w_fs w') k' r'.
+(* PROVED PART: the extra hypothesis is [ops_covered]: every applicable operation of the history is one of
+   Touch / Write / Chmod / Unlink / Mkdir / Rmdir (not the root) / Rename of a file (any direction, replacing or not) /
+   Rename of a directory inside the tree to a fresh name (recursive watch).
+   NOT covered (kept in the full statement only): a directory moved into the tree from outside, a directory moved
+   out of the tree (Cover survives, WInv does not - finding F10), a directory renamed over an empty directory,
+   directory renames under a non-recursive watch or entirely outside the tree. *)
+Theorem C02_cover_sequential_partial : forall C, c_faults C = [] -> forall ops, mask_ok C -> forall w k r,
+  RSync C w k r -> ops_covered C w ops ->
+  exists w' k' r', rrun C w k r ops = Some (w', k', r') /\ RSync C w' k' r'.
+Proof. exact cover_sequential. Qed.
+Print Assumptions C02_cover_sequential_partial.
+
+Theorem C02_cover_from_start_partial : forall C, c_faults C = [] -> forall ops w, mask_ok C -> wf_fs w ->
+  fisdir (c_root C) (w_fs w) = true -> ops_covered C w ops ->
+  exists r0 k0 w' k' r', construct C kinit (w_fs w) = Some (r0, k0) /\ rrun C w k0 r0 ops = Some (w', k', r') /\
+                         wf_fs w' /\ Cover C (w_fs w') k' r'.
+Proof. exact cover_from_start. Qed.
+Print Assumptions C02_cover_from_start_partial.
+
+(* ---- 2d. the probe: from a synchronised state, creating a fresh file [name] in ANY directory in scope makes the reader
+   produce, first, a raw IN_CREATE event whose src_path is the real path d/name; the emitter turns it into
+   FileCreatedEvent(d/name) + DirModifiedEvent(d). *)
+Theorem C02_probe : forall C w k r de name w', RSync C w k r -> c_mask C = WATCHDOG_ALL ->
+  In de (w_fs w) -> f_dir de = true -> scope C (f_path de) -> valid_name name = true ->
+  let p := f_path de ++ sep :: name in
+  apply_op w (Touch p) = Some w' ->
+  let k1 := kernel_op k (w_fs w) (Touch p) in
+  exists wd rest,
+    let ev := {| r_wd := wd; r_mask := IN_CREATE; r_cookie := 0; r_name := name; r_path := p |} in
+    read_batch C (w_fs w') (r, drainq k1, []) (k_queue k1) = Done (r, drainq k1, ev :: rest) /\
+    forall full rec content, emit_single full rec (c_root C) content ev = ([mk FileCreated p []; parent_modified p], false).
+Proof. exact probe. Qed.
+Print Assumptions C02_probe.
+
+(* non-recursive watch: creating something in a directory other than the root produces no kernel event at all,
+   and every kernel watch is the root's *)
+Theorem C02_flat : forall C w k r p w', RSync C w k r -> c_recursive C = false -> dirname p <> c_root C ->
+  (apply_op w (Touch p) = Some w' -> k_queue (kernel_op k (w_fs w) (Touch p)) = []) /\
+  (apply_op w (Mkdir p) = Some w' -> k_queue (kernel_op k (w_fs w) (Mkdir p)) = []).
+Proof. exact flat. Qed.
+Print Assumptions C02_flat.
+
+Theorem C02_flat_watches : forall C w k r, RSync C w k r -> c_recursive C = false ->
+  forall kw, In kw (k_watches k) -> alookup N.eqb (kw_wd kw) (pfw r) = Some (c_root C).
+Proof. exact flat_watches. Qed.
+Print Assumptions C02_flat_watches.
+
+(* ---- 2e. the pinned code (c_fix_movein = false): a directory moved in from outside is never watched - Cover fails *)
+Theorem C02_pinned_movein_refuted :
+  exists C w ops, c_fix_movein C = false /\ c_fix_ignored C = true /\ c_fix_simulate C = true /\ c_faults C = [] /\
+    mask_ok C /\ wf_fs w /\ fisdir (c_root C) (w_fs w) = true /\
+    exists r0 k0 w' k' r', construct C kinit (w_fs w) = Some (r0, k0) /\ rrun C w k0 r0 ops = Some (w', k', r') /\
+                           ~ Cover C (w_fs w') k' r'.
+Proof. exact pinned_movein_refuted. Qed.
+Print Assumptions C02_pinned_movein_refuted.
+
+(* pinned code, mkdir a; rename a b before the first read: b is never watched *)
+Theorem C02_pinned_mkdir_rename_refuted :
+  exists s0 s obs, pinit (Px false) w0 = Some s0 /\
+    prun (Px false) s0 [AOp (Mkdir (sub pR 97)); AOp (Rename (sub pR 97) (sub pR 98)); ARead 3] [] = Done (s, obs) /\
+    k_queue (p_k s) = [] /\ ~ Cover (cfgx true false) (w_fs (p_world s)) (p_k s) (p_r s).
+Proof. exact mkdir_rename_pinned_refuted. Qed.
+Print Assumptions C02_pinned_mkdir_rename_refuted.
+
+(* the operation kinds of the FULL step statement that are not proved in general, stated as Props, with the
+   repaired model's behaviour on concrete instances below (C02_movein_example, C02_mkdir_rename_example) *)
+Definition C02_step_full : Prop :=
+  forall C, c_faults C = [] -> c_fix_ignored C = true -> c_fix_movein C = true -> c_fix_simulate C = true -> mask_ok C ->
+  forall w k r o w', RSync C w k r -> op_np o -> op_keeps_root C o -> apply_op w o = Some w' ->
+  let k1 := kernel_op k (w_fs w) o in
+  exists r' k' evs, read_batch C (w_fs w') (r, drainq k1, []) (k_queue k1) = Done (r', k', evs) /\
+                    wf_fs w' /\ Cover C (w_fs w') k' r'.
+
+(* ---- non-vacuity *)
+Example C02_w0_wf : wf_fs w0 /\ fisdir (c_root (cfgx true true)) (w_fs w0) = true /\ mask_ok (cfgx true true).
+Proof. split; [exact w0_wf|]. split; [reflexivity|]. repeat split; vm_compute; discriminate. Qed.
+
+(* the repaired code on the moved-in directory tree: the arrived directory and its sub-directory are covered *)
+Example C02_movein_example :
+  exists r0 k0 w' k' r', construct (cfgx true true) kinit (w_fs w0) = Some (r0, k0) /\
+    rrun (cfgx true true) w0 k0 r0 [Rename (sub pO 100) (sub pR 100)] = Some (w', k', r') /\
+    Cover (cfgx true true) (w_fs w') k' r' /\ fisdir (sub (sub pR 100) 101) (w_fs w') = true.
+Proof. exact repaired_movein_example. Qed.
+
+(* the pacing exception: mkdir a; rename a b; then the first read - the repaired MOVED_TO branch watches b *)
+Example C02_mkdir_rename_example :
+  exists s0 s obs, pinit (Px true) w0 = Some s0 /\
+    prun (Px true) s0 [AOp (Mkdir (sub pR 97)); AOp (Rename (sub pR 97) (sub pR 98)); ARead 3] [] = Done (s, obs) /\
+    fisdir (sub pR 98) (w_fs (p_world s)) = true /\ k_queue (p_k s) = [] /\
+    Cover (cfgx true true) (w_fs (p_world s)) (p_k s) (p_r s).
+Proof. exact mkdir_rename_example. Qed.
+
+(* a history that exercises every constructor of covered_op (hypothesis of C02_cover_from_start_partial) *)
+Example C02_ops_covered_nonvacuous :
+  ops_covered (cfgx true true) w0
+    [Mkdir (sub pR 97); Mkdir (sub (sub pR 97) 99); Touch (sub (sub pR 97) 102);
+     Rename (sub pR 97) (sub pR 98);                                   (* directory with a sub-directory and a file *)
+     Rename (sub (sub pR 98) 102) (sub pR 102);                        (* file *)
+     Unlink (sub pR 102); Rmdir (sub (sub pR 98) 99); Rmdir (sub pR 98)].
+Proof.
+  assert (GR : gpath pR) by (split; [discriminate | reflexivity]).
+  assert (Na : forall n, valid_name [n] = true -> npath (sub pR n)) by (intros; now apply npath_sub).
+  assert (Nb : forall m n, valid_name [m] = true -> valid_name [n] = true -> npath (sub (sub pR m) n)).
+  { intros. apply npath_sub; [apply npath_gpath; now apply Na | assumption]. }
+  eapply ops_covered_cons; [vm_compute; reflexivity | apply co_mkdir; now apply Na |].
+  eapply ops_covered_cons; [vm_compute; reflexivity | apply co_mkdir; now apply Nb |].
+  eapply ops_covered_cons; [vm_compute; reflexivity | apply co_quiet; [exact I | now apply Nb] |].
+  eapply ops_covered_cons; [vm_compute; reflexivity | |].
+  { eapply co_rename_dir; try (now apply Na); try reflexivity; try (vm_compute; reflexivity);
+      try (right; vm_compute; reflexivity); try (vm_compute; discriminate). }
+  eapply ops_covered_cons; [vm_compute; reflexivity | |].
+  { eapply co_rename_file; try (now apply Na); try (now apply Nb); try (vm_compute; reflexivity). }
+  eapply ops_covered_cons; [vm_compute; reflexivity | apply co_quiet; [exact I | now apply Na] |].
+  eapply ops_covered_cons; [vm_compute; reflexivity | apply co_rmdir; [now apply Nb | vm_compute; discriminate] |].
+  eapply ops_covered_cons; [vm_compute; reflexivity | apply co_rmdir; [now apply Na | vm_compute; discriminate] |].
+  exact I.
+Qed.
